@@ -112,23 +112,32 @@ def sort_of(ty):
     elif ty.name == "Ref":
         s = z3.IntSort()
     elif ty.name == "Opt":
-        d = z3.Datatype("Opt_" + ty.args[0].key)
-        d.declare("none")
-        d.declare("some", ("val", sort_of(ty.args[0])))
+        u = ty.args[0].key
+        d = z3.Datatype("Opt_" + u)
+        d.declare("none_" + u)
+        d.declare("some_" + u, ("val_" + u, sort_of(ty.args[0])))
         s = d.create()
+        # constructor / selector symbols are unique per sort (cvc5 requires it); short aliases for the engine
+        s.none, s.some, s.val, s.is_none = s.constructor(0)(), s.constructor(1), s.accessor(1, 0), s.recognizer(0)
     elif ty.name == "Tuple":
-        d = z3.Datatype("Tup_" + ty.key)
-        d.declare("mk", *[(f"f{i}", sort_of(t)) for i, t in enumerate(ty.args)])
+        u = ty.key
+        d = z3.Datatype("Tup_" + u)
+        d.declare("mk_" + u, *[(f"f{i}_{u}", sort_of(t)) for i, t in enumerate(ty.args)])
         s = d.create()
+        s.mk = s.constructor(0)
     elif ty.name == "List":
-        d = z3.Datatype("Lst_" + ty.args[0].key)
-        d.declare("mk", ("data", z3.ArraySort(z3.IntSort(), sort_of(ty.args[0]))), ("len", z3.IntSort()))
+        u = ty.args[0].key
+        d = z3.Datatype("Lst_" + u)
+        d.declare("mkl_" + u, ("data_" + u, z3.ArraySort(z3.IntSort(), sort_of(ty.args[0]))), ("len_" + u, z3.IntSort()))
         s = d.create()
+        s.mk, s.data, s.len = s.constructor(0), s.accessor(0, 0), s.accessor(0, 1)
     elif ty.name == "Map":
-        d = z3.Datatype("Map_" + ty.key)
-        d.declare("mk", ("dom", z3.ArraySort(sort_of(ty.args[0]), z3.BoolSort())),
-                  ("val", z3.ArraySort(sort_of(ty.args[0]), sort_of(ty.args[1]))))
+        u = ty.key
+        d = z3.Datatype("Map_" + u)
+        d.declare("mkm_" + u, ("dom_" + u, z3.ArraySort(sort_of(ty.args[0]), z3.BoolSort())),
+                  ("mval_" + u, z3.ArraySort(sort_of(ty.args[0]), sort_of(ty.args[1]))))
         s = d.create()
+        s.mk, s.dom, s.val = s.constructor(0), s.accessor(0, 0), s.accessor(0, 1)
     elif ty.name == "Set":
         s = z3.ArraySort(sort_of(ty.args[0]), z3.BoolSort())
     else:
